@@ -40,7 +40,7 @@ type item struct {
 	majority string // majority fact hash ("" = none)
 	point    string
 	th10     int64
-	votes    map[string]string // node address -> fact hash (real sign facts)
+	votes    map[string]map[string]bool // signer public key -> fact hashes it signed (real sign facts)
 	nexp     int
 	stuck    bool
 	hasexp   bool
@@ -71,9 +71,13 @@ func (it *item) eval() {
 	}
 	it.point = vp.Point().String()
 	it.th10 = th10Of(vp.Threshold())
-	it.votes = map[string]string{}
+	it.votes = map[string]map[string]bool{}
 	for _, sf := range vp.SignFacts() {
-		it.votes[sf.Node().String()] = sf.Fact().Hash().String()
+		k := sf.Signer().String()
+		if it.votes[k] == nil {
+			it.votes[k] = map[string]bool{}
+		}
+		it.votes[k][sf.Fact().Hash().String()] = true
 	}
 	if he, ok := vp.(base.HasExpels); ok {
 		it.hasexp = true
@@ -238,12 +242,22 @@ func main() {
 					continue
 				}
 				conflicting++
+				// equivocators are counted by signing key (whatever address string the sign fact names): a key that
+				// signed two different facts, in the two voteproofs or inside one of them
 				eq := int64(0)
-				for node, fa := range a.votes {
-					if _, member := a.w.nodeIDs[node]; !member || a.w.nodeIDs[node] >= outBase {
-						continue
+				union := map[string]map[string]bool{}
+				for _, x := range []*item{a, b} {
+					for key, fs := range x.votes {
+						if union[key] == nil {
+							union[key] = map[string]bool{}
+						}
+						for f := range fs {
+							union[key][f] = true
+						}
 					}
-					if fb, ok := b.votes[node]; ok && fa != fb {
+				}
+				for _, fs := range union {
+					if len(fs) > 1 {
 						eq++
 					}
 				}
